@@ -332,7 +332,55 @@ func CliqueRich(t *rapid.T, n int) ([][]int, []string) {
 	var cls [][]int
 	var shapes []string
 	for b, blocks := 0, rapid.IntRange(1, 4).Draw(t, "blocks"); b < blocks; b++ {
-		switch rapid.IntRange(0, 6).Draw(t, "block") {
+		switch rapid.IntRange(0, 7).Draw(t, "block") {
+		case 7:
+			// an at-most-one group of 5..7 variables together with clauses over most of the group (at least one
+			// of them true) and a few clauses linking the group to other variables: the detected constraint is
+			// the reason of many propagations during conflict analysis
+			k := Uniform(t, min(5, n), min(7, n), "k")
+			ls := DistinctLits(t, n, k, "g")
+			for i := range ls {
+				ls[i] = abs(ls[i])
+			}
+			cls = append(cls, clique(ls)...)
+			for i, m := 0, rapid.IntRange(1, 2).Draw(t, "overGroup"); i < m; i++ {
+				drop := Uniform(t, 0, k-1, "dropOne")
+				var c []int
+				for j, l := range ls {
+					if j != drop {
+						c = append(c, l)
+					}
+				}
+				if n > k && rapid.Bool().Draw(t, "plusOther") {
+					o := Lit(t, n, "o")
+					dup := false
+					for _, l := range c {
+						if abs(l) == abs(o) {
+							dup = true
+						}
+					}
+					if !dup {
+						c = append(c, o)
+					}
+				}
+				cls = append(cls, c)
+			}
+			for i, m := 0, rapid.IntRange(1, 4).Draw(t, "links"); i < m; i++ {
+				member := ls[Uniform(t, 0, k-1, "member")] // a member of the group, negated or not
+				if rapid.Bool().Draw(t, "negMember") {
+					member = -member
+				}
+				c := []int{member}
+				for _, l := range DistinctLits(t, n, Uniform(t, 1, 2, "llen"), "k") {
+					if abs(l) != abs(member) { // each variable once per clause (the PB front-end requires it)
+						c = append(c, l)
+					}
+				}
+				if len(c) >= 2 {
+					cls = append(cls, c)
+				}
+			}
+			shapes = append(shapes, "big-group-with-long-clauses")
 		case 0, 1:
 			k := Uniform(t, 2, min(5, n), "k")
 			ls := DistinctLits(t, n, k, "q")
